@@ -70,9 +70,12 @@ enum RK {
     JoinAcceptWhileJoined,
     Oversize,
     Truncated,
+    /// not authentic, MACPayload exactly the maximum of the RX2 data rate (must NOT be treated
+    /// as oversized)
+    ExactMaxBadMic,
 }
 
-const RKS: [RK; 10] = [RK::Random, RK::BitFlip, RK::OtherSession, RK::Replay, RK::Stale, RK::FarFuture, RK::Reflected, RK::JoinAcceptWhileJoined, RK::Oversize, RK::Truncated];
+const RKS: [RK; 11] = [RK::Random, RK::BitFlip, RK::OtherSession, RK::Replay, RK::Stale, RK::FarFuture, RK::Reflected, RK::JoinAcceptWhileJoined, RK::Oversize, RK::Truncated, RK::ExactMaxBadMic];
 
 struct Step {
     data: Vec<u8>,
@@ -192,11 +195,15 @@ fn data_twins(front: Front, reg: Reg, flip_bit: Option<usize>, rng: &mut Prng, c
     let mut auth_delivered = false;
     for k in 0..ninsert {
         let mut kind = if flip_bit.is_some() { RK::BitFlip } else { *rng.pick(&RKS) };
-        if adr_mode && matches!(kind, RK::Replay | RK::Stale) {
+        if adr_mode && matches!(kind, RK::Replay | RK::Stale) && start_down.is_none() {
             kind = RK::FarFuture;
         }
+        // the payload limit of the RX2 rate is the same in every edition only for these plans
+        if kind == RK::ExactMaxBadMic && !matches!(reg, Reg::EU868 | Reg::EU433 | Reg::IN865) {
+            kind = RK::Random;
+        }
         // rejected frame (some kinds need the authentic frame delivered first)
-        if matches!(kind, RK::Replay | RK::Stale) && !auth_delivered {
+        if matches!(kind, RK::Replay | RK::Stale) && !auth_delivered && !adr_mode {
             steps.push(Step { data: vec![3], port: 2, confirmed: false, a: Script::rx1(auth.clone()), b: Script::rx1(auth.clone()), b_may_end_early: false, note: "authentic".into() });
             auth_delivered = true;
         }
@@ -224,8 +231,19 @@ fn data_twins(front: Front, reg: Reg, flip_bit: Option<usize>, rng: &mut Prng, c
                 let other = Net { nwk: rng.arr(), app: rng.arr(), addr: rng.next_u32() };
                 other.downlink(&Down { fcnt: n_auth + 1, port: Some(1), payload: &[1], ..Default::default() })
             }
+            // in ADR mode nothing was delivered yet: the last accepted downlink is the one the
+            // session started from
+            RK::Replay if adr_mode => net.downlink(&Down { fcnt: start_down.unwrap_or(0), port: Some(4), payload: &[4], confirmed: rng.bool(), ..Default::default() }),
+            RK::Stale if adr_mode => net.downlink(&Down { fcnt: start_down.unwrap_or(0).saturating_sub(1 + rng.below(3) as u32), port: Some(4), payload: &[4], ..Default::default() }),
             RK::Replay => auth.clone(),
             RK::Stale => net.downlink(&Down { fcnt: n_auth.saturating_sub(1 + rng.below(3) as u32), port: Some(4), payload: &[4], confirmed: true, ..Default::default() }),
+            RK::ExactMaxBadMic => {
+                // MACPayload = 7 (FHDR) + 1 (FPort) + 51 = 59 bytes, the RX2 limit in these plans
+                let mut v = net.downlink(&Down { fcnt: n_auth + 1, port: Some(4), payload: &rng.bytes(51), ..Default::default() });
+                let l = v.len();
+                v[l - 1] ^= 0x5A;
+                v
+            }
             RK::FarFuture => net.downlink(&Down { fcnt: n_auth.saturating_add(16_385 + rng.below(30_000) as u32), port: Some(4), payload: &[4], confirmed: true, f_opts: &rx_timing_setup_req(5), ..Default::default() }),
             RK::Reflected => vec![], // filled at run time with B's own uplink of this transaction
             RK::JoinAcceptWhileJoined => {
@@ -249,13 +267,21 @@ fn data_twins(front: Front, reg: Reg, flip_bit: Option<usize>, rng: &mut Prng, c
             }
             continue;
         }
-        if kind == RK::Stale && !auth_delivered {
+        if kind == RK::Stale && !auth_delivered && !adr_mode {
+            continue;
+        }
+        if adr_mode && matches!(kind, RK::Replay | RK::Stale) && !ref_rejected(&net, start_down, &frame) {
             continue;
         }
         // insertion point
         let mut sa = Script::silent();
         let mut sb = Script::silent();
         let mut pick = rng.below(if front == Front::AsyncC { 5 } else { 3 });
+        if kind == RK::ExactMaxBadMic {
+            // RX2 (its rate is the plan's default here), optionally followed by nothing: twin A's
+            // RX2 is silent, so B must behave exactly like A
+            pick = 1;
+        }
         if kind == RK::Oversize && pick == 0 {
             // only the RX2 / Class C rate has a payload limit the frame clearly exceeds in
             // every region (RX1 may run at a rate that allows 250 bytes)
@@ -302,7 +328,7 @@ fn data_twins(front: Front, reg: Reg, flip_bit: Option<usize>, rng: &mut Prng, c
             }
         };
         col.event(match kind {
-            RK::Random | RK::Truncated => "inserted_random",
+            RK::Random | RK::Truncated | RK::ExactMaxBadMic => "inserted_random",
             RK::BitFlip => "inserted_bitflip",
             RK::Replay | RK::Stale | RK::FarFuture => "inserted_replay",
             RK::OtherSession | RK::JoinAcceptWhileJoined => "inserted_other_session",
@@ -317,6 +343,13 @@ fn data_twins(front: Front, reg: Reg, flip_bit: Option<usize>, rng: &mut Prng, c
         return Some(nbits);
     }
     // ---- tail: further uplinks, one after an accepted downlink ----------------------------------------
+    if adr_mode {
+        // enough silent uplinks for a wrongly reset ADR counter to show (ADRACKReq at 64, first
+        // back-off step at 96)
+        for _ in 0..rng.range(2, 40) {
+            steps.push(silent("tail", rng));
+        }
+    }
     steps.push(silent("tail", rng));
     {
         let n = n_auth + 20;
